@@ -3804,6 +3804,64 @@ func (x *c24x) zeroDivisor(va *core.Func) {
 			if !bad {
 				c.Ok("C24-R4", key+"|zero => error", pos(c, cl.cc), "the literal-zero edge always records an error")
 			}
+			// the test must not be narrowed by a condition on an operand's type that is evaluated before the
+			// operand types are unified: a type that is still a variable then is not Equal to Int, and the
+			// division by the literal 0 is accepted
+			okVars := map[types.Object]bool{}
+			core.InspectNoLit(cl.cc, func(n ast.Node) bool {
+				if as, ok := n.(*ast.AssignStmt); ok && len(as.Lhs) == 2 && len(as.Rhs) == 1 {
+					if ta, isTA := core.Unparen(as.Rhs[0]).(*ast.TypeAssertExpr); isTA && c24fieldOf(info, cl.v, rhsField)(ta.X) {
+						if o := identObj(info, as.Lhs[1]); o != nil {
+							okVars[o] = true
+						}
+					}
+				}
+				return true
+			})
+			isZeroAtom := func(e ast.Expr) bool {
+				be, ok := core.Unparen(e).(*ast.BinaryExpr)
+				if !ok || be.Op != token.EQL {
+					return false
+				}
+				for _, pr := range [][2]ast.Expr{{be.X, be.Y}, {be.Y, be.X}} {
+					if sel, isS := core.Unparen(pr[0]).(*ast.SelectorExpr); isS && info.Uses[sel.Sel] == types.Object(iField) && litVars[identObj(info, sel.X)] {
+						if v, isC := constInt(info, pr[1]); isC && v == 0 {
+							return true
+						}
+					}
+				}
+				return false
+			}
+			unifies := cl.reg.calls(c24Unify, c24PkgTypes+".LeastUpperBound")
+			for _, b := range cl.reg.condBlocks(isZeroAtom) {
+				cond, okc := c24cond(va, b)
+				if !okc {
+					continue
+				}
+				var extra []string
+				_, known := c24eval3(cond, func(a ast.Expr) (bool, bool) {
+					a = core.Unparen(a)
+					if isZeroAtom(a) || okVars[identObj(info, a)] {
+						return true, true
+					}
+					if be, ok := a.(*ast.BinaryExpr); ok && (be.Op == token.EQL || be.Op == token.NEQ) && (isOp(be.X) || isOp(be.Y)) {
+						return true, true
+					}
+					if call, ok := a.(*ast.CallExpr); ok && strings.HasPrefix(va.CalleeID(call), c24PkgTypes+".") {
+						extra = append(extra, exprStr(a))
+					}
+					return false, false
+				})
+				if known || len(extra) == 0 {
+					continue
+				}
+				bp := core.Point{B: b, I: len(b.Nodes) - 1}
+				if tr, early := cl.reg.path(nil, core.At(core.HitPoints(unifies)...), nil, core.At(bp)); early {
+					c.Fail("C24-R4", key+"|zero test narrowed", pos(c, b.Nodes[len(b.Nodes)-1]), "the literal-zero test is narrowed by "+strings.Join(extra, ", ")+", evaluated before the operand types are unified: where the dividend's type is still a type variable (inferred later from the rest of the program) the test fails and `x / 0`, `x % 0` are accepted although the division turns out to be an integer division", tr...)
+				} else {
+					c.Note("C24-R4", key+"|zero test narrowed", pos(c, b.Nodes[len(b.Nodes)-1]), "the literal-zero test is also conditional on "+strings.Join(extra, ", ")+" (evaluated after unification): not decided")
+				}
+			}
 			// per operator: no path that fits Op = v avoids both the test and an error
 			swOf := c24tagSwitches(va)
 			isAdd := x.isAdd(g)
